@@ -118,9 +118,10 @@ class ListV(object):
 
 
 class TupleV(object):
-    """a tuple of abstract values (several results returned by a helper)"""
-    def __init__(self, items):
+    """a tuple of abstract values (several results returned by a helper); `names` for a namedtuple"""
+    def __init__(self, items, names=None):
         self.items = list(items)
+        self.names = list(names) if names else None
 
     def __eq__(self, o):
         return isinstance(o, TupleV) and len(o.items) == len(self.items) and all(_same(a, b) for a, b in zip(self.items, o.items))
@@ -166,7 +167,7 @@ class Interp(object):
         self.depth = 0
 
     # ------------------------------------------------------------------ entry
-    def run(self, finfo, args=None, closure=None):
+    def run(self, finfo, args=None, closure=None, outer_sinks=()):
         env = dict(closure or {})
         for p in finfo.params + finfo.kwonly:
             env[p] = args[p] if args and p in args else Sym(ast.Name(id=p, ctx=ast.Load()))
@@ -175,6 +176,8 @@ class Interp(object):
             if isinstance(n, ast.Call) and U(n.func) in ('pd.DataFrame', 'pandas.DataFrame', 'DataFrame') and n.args \
                     and isinstance(n.args[0], ast.Name):
                 sink_names.add(n.args[0].id)
+        # a closure appending to the row list of the function it is nested in
+        sink_names |= set(x for x in outer_sinks if x not in finfo.params)
         st = _State(finfo, env, sink_names)
         ret = []
         self._block(finfo.node.body, st, ret, ())
@@ -232,7 +235,24 @@ class Interp(object):
                 return Unknown('list + non-list')
             return Sym(ast.BinOp(left=expr_of(a), op=ast.Add(), right=expr_of(b)))
         if isinstance(e, ast.Call):
+            if isinstance(e.func, ast.Name) and st.func is not None and not any(isinstance(a, ast.Starred) for a in e.args):
+                fields = self.repo.namedtuple_fields(st.func.module, e.func.id, st.func)
+                if fields and len(e.args) + len(e.keywords) == len(fields):
+                    vals = {}
+                    for nm, a in zip(fields, e.args):
+                        vals[nm] = self.eval(a, st)
+                    for k in e.keywords:
+                        if k.arg in fields:
+                            vals[k.arg] = self.eval(k.value, st)
+                    if set(vals) == set(fields):
+                        return TupleV([vals[nm] for nm in fields], names=fields)
             return self._call(e, st)
+        if isinstance(e, ast.Attribute):
+            base = self.eval(e.value, st)
+            if isinstance(base, TupleV) and base.names and e.attr in base.names:
+                return base.items[base.names.index(e.attr)]
+            if isinstance(base, TupleV):
+                return Unknown('attribute %s of a tuple' % e.attr)
         if isinstance(e, (ast.ListComp, ast.GeneratorExp)) and len(e.generators) == 1 and not e.generators[0].ifs \
                 and isinstance(e.generators[0].target, ast.Name):
             g = e.generators[0]
@@ -257,7 +277,8 @@ class Interp(object):
                 if k != EMPTY:
                     pieces.append((Sym(ast.Name(id=var, ctx=ast.Load())), var, it.text))
             else:
-                return Unknown('comprehension over an opaque iterable')
+                # an opaque iterable (a call result): the repetition count is unknown, the element layout is not
+                pieces.append((Sym(ast.Name(id=var, ctx=ast.Load())), var, '<opaque>' + (it.text if isinstance(it, Sym) else '?')))
             for val, v, base in pieces:
                 sub = st.fork()
                 sub.env[var] = val
@@ -299,8 +320,11 @@ class Interp(object):
             args = {p: self.eval(a, st) if not _is_default(callee, p, a) else self._eval_default(a) for p, a in bound.items()}
             sub = Interp(self.repo, self.scn, self.inline)
             sub.depth = self.depth + 1
-            out = sub.run(callee, args, closure=st.env if callee.outer is not None else None)
+            out = sub.run(callee, args, closure=st.env if callee.outer is not None else None,
+                          outer_sinks=st.sink_names if callee.outer is not None else ())
             self.none_iter += sub.none_iter
+            self.sinks += sub.sinks
+            self.frames += [fr for fr in sub.frames if fr not in self.frames]
             return out
         if isinstance(e.func, ast.Name) and e.func.id == 'list' and len(e.args) == 1:
             v = self.eval(e.args[0], st)
@@ -591,6 +615,10 @@ def _rebuild(e, env):
         return e
     if not isinstance(e, ast.AST):
         return e
+    if isinstance(e, ast.Attribute) and isinstance(e.value, ast.Name) and isinstance(e.ctx, ast.Load):
+        tv = env.get(e.value.id)
+        if isinstance(tv, TupleV) and tv.names and e.attr in tv.names:
+            return expr_of(tv.items[tv.names.index(e.attr)])
     changed = False
     vals = {}
     for fld, old in ast.iter_fields(e):
@@ -631,7 +659,7 @@ def _join(a, b):
     if isinstance(a, ListV) and isinstance(b, ListV) and a == b:
         return a
     if isinstance(a, TupleV) and isinstance(b, TupleV) and len(a.items) == len(b.items):
-        return TupleV([_join(x, y) for x, y in zip(a.items, b.items)])
+        return TupleV([_join(x, y) for x, y in zip(a.items, b.items)], names=a.names)
     if isinstance(a, Sym) and isinstance(b, Sym) and a == b:
         return a
     if isinstance(a, NoneV) and isinstance(b, NoneV):
